@@ -1131,15 +1131,20 @@ package vm
 
 // Running code in a frame: arbitrary state changes, gas only decreases (C11; the interpreter loop itself is
 // not yet under contract: this is an assumption of the frame-level contracts below).
+// ghost emitted: the number of logs emitted so far that are still standing (LOGn adds one, a reverted frame takes its
+// own back). What a frame that ends without error hands back are the logs emitted in it (C12: the receipt carries
+// exactly the logs the transaction emitted).
+//@ ghost emitted Int
 //@ func run
 //@   option trusted
 //@   requires evm != nil && contract != nil
+//@   ensures [logs] result2 == nil ==> len(result1) == ghost(emitted) - old(ghost(emitted))
 //@   ensures contract.Gas <= old(contract.Gas)
 //@   ensures ghost(snapnext) >= old(ghost(snapnext)) && forall i Int :: i < old(ghost(snapnext)) ==> @select(ghost(snapver), i) == @select(old(ghost(snapver)), i) && @select(ghost(snapbal), i) == @select(old(ghost(snapbal)), i) && @select(ghost(snapsupply), i) == @select(old(ghost(snapsupply)), i)
 //@   # executing code creates no value and leaves no negative balance (C06 at the level of the opcode family: assumed
 //@   # here, proved for the transfer steps of Call/CallCode/create and for vm.Transfer itself)
 //@   ensures [supply] ghost(supply) <= old(ghost(supply)) && ((forall a common.Address :: old(balOf(a)) >= 0) ==> forall a common.Address :: balOf(a) >= 0)
-//@   modifies ghost(stver), ghost(snapver), ghost(snapnext), ghost(bal), ghost(supply), ghost(snapbal), ghost(snapsupply), contract.Gas, evm.interpreter, evm.callGasTemp, evm.depth
+//@   modifies ghost(stver), ghost(snapver), ghost(snapnext), ghost(bal), ghost(supply), ghost(snapbal), ghost(snapsupply), ghost(emitted), contract.Gas, evm.interpreter, evm.callGasTemp, evm.depth
 
 // The address of a contract reference is a fixed attribute of the reference.
 //@ spec abstract fn refAddr(c ContractRef) common.Address
@@ -1177,6 +1182,7 @@ package vm
 //@   ensures [revert]  err != nil ==> ghost(stver) == old(ghost(stver))
 //@   # a frame that fails hands no logs back: what it emitted was reverted with the rest of its effects (C12)
 //@   ensures [faillogs] err != nil ==> len(logs) == 0
+//@   ensures [keeplogs] err == nil ==> len(logs) == ghost(emitted) - old(ghost(emitted))
 
 //@ spec abstract fn isSubChain() bool
 //@ func ext_isSub
@@ -1214,6 +1220,7 @@ package vm
 //@   ensures [gas]     leftOverGas <= gas
 //@   # a frame that fails hands no logs back: what it emitted was reverted with the rest of its effects (C12)
 //@   ensures [faillogs] err != nil ==> len(logs) == 0
+//@   ensures [keeplogs] err == nil ==> len(logs) == ghost(emitted) - old(ghost(emitted))
 
 //@ func EVM.CallCode
 //@   property C12 C11
@@ -1224,6 +1231,7 @@ package vm
 //@   ensures [revert]  err != nil ==> ghost(stver) == old(ghost(stver))
 //@   # a frame that fails hands no logs back: what it emitted was reverted with the rest of its effects (C12)
 //@   ensures [faillogs] err != nil ==> len(logs) == 0
+//@   ensures [keeplogs] err == nil ==> len(logs) == ghost(emitted) - old(ghost(emitted))
 
 //@ func EVM.DelegateCall
 //@   property C12 C11
@@ -1236,6 +1244,7 @@ package vm
 //@   ensures [revert]  err != nil ==> ghost(stver) == old(ghost(stver))
 //@   # a frame that fails hands no logs back: what it emitted was reverted with the rest of its effects (C12)
 //@   ensures [faillogs] err != nil ==> len(logs) == 0
+//@   ensures [keeplogs] err == nil ==> len(logs) == ghost(emitted) - old(ghost(emitted))
 
 //@ func EVM.StaticCall
 //@   property C12 C11
@@ -1246,6 +1255,7 @@ package vm
 //@   ensures [revert]  err != nil ==> ghost(stver) == old(ghost(stver))
 //@   # a frame that fails hands no logs back: what it emitted was reverted with the rest of its effects (C12)
 //@   ensures [faillogs] err != nil ==> len(logs) == 0
+//@   ensures [keeplogs] err == nil ==> len(logs) == ghost(emitted) - old(ghost(emitted))
 
 // ---------------------------------------------------------------------------------------------
 // Rangers opcodes AUTH / AUTHCALL helpers (C11: no opcode may crash the host). AUTH's jump-table entry has
